@@ -132,7 +132,9 @@ Definition step (w : world) (o : op) : world * outcome :=
   let e := w_env w in
   match o with
   | OReset ut => (empty_world ut, (true, []))
-  | OAdvance dt => (set_env w (ev_advance e dt), (true, []))
+  | OAdvance dt =>
+      (* cosmwasm Timestamp holds u64 nanoseconds: block times above MAX_NOW cannot be represented *)
+      if e_now e + dt <=? 18446744073 then (set_env w (ev_advance e dt), (true, [])) else (w, (false, []))
   | OSlash v num den unb =>
       match ev_slash e v num den unb with
       | Some e' => (set_env w e', (true, []))
